@@ -1064,6 +1064,13 @@ class SymArray(np.ndarray):
             self.tag = getattr(obj, "tag", None)
 
     def __array_ufunc__(self, ufunc, method, *inputs, **kwargs):
+        tags = {getattr(i, "tag", None) for i in inputs if isinstance(i, SymArray)} - {None}
+        r = self._ufunc(ufunc, method, *inputs, **kwargs)
+        if tags and isinstance(r, SymArray):
+            r.tag = next(iter(tags)) if len(tags) == 1 else "MIXED:" + "+".join(sorted(map(str, tags)))
+        return r
+
+    def _ufunc(self, ufunc, method, *inputs, **kwargs):
         ins = tuple(np.asarray(i).view(np.ndarray) if isinstance(i, SymArray) else i for i in inputs)
         if method == "__call__":
             if ufunc in _CMP:
